@@ -95,7 +95,7 @@ impl SubCheck for Gates {
 		"gates"
 	}
 	fn cases(&self, tier: Tier) -> u32 {
-		tier.pick(30_000, 600_000)
+		tier.pick(300_000, 6_000_000)
 	}
 	fn strategy(&self, _tier: Tier) -> BoxedStrategy<GateCase> {
 		(
@@ -253,7 +253,7 @@ impl SubCheck for Chunking {
 		"chunking"
 	}
 	fn cases(&self, tier: Tier) -> u32 {
-		tier.pick(30_000, 800_000)
+		tier.pick(300_000, 6_000_000)
 	}
 	fn strategy(&self, _tier: Tier) -> BoxedStrategy<ChunkCase> {
 		(
